@@ -3,7 +3,7 @@
    lemma of Proofs/{SortingProofs,SfcProofs,ZCurveProofs}.v, with
    [Print Assumptions] beneath.  The models are instantiated with the literals
    the translator read from hilbert_curve.rs / z_curve.rs (Gen/SfcGen.v). *)
-From Coupe Require Import Lib.Prelude Lib.SFloat Lib.Sorting Model.SfcPart
+From Coupe Require Import Lib.Prelude Lib.SFloat Lib.Sorting Model.SfcPart Model.ZGeom Proofs.ZGeomProofs
   Proofs.SortingProofs Proofs.SfcProofs Proofs.ZCurveProofs Proofs.ZCheckProofs Proofs.ZOracleProofs Proofs.WqTermProofs Gen.SfcGen.
 From Coq Require Import Floats.SpecFloat Sorting.Permutation Sorting.Sorted.
 Open Scope nat_scope.
@@ -220,6 +220,47 @@ Theorem C09_sorter_ext_inhabited : sorter_ext sort_by_key.
 Proof. exact sort_by_key_ext. Qed.
 Print Assumptions C09_zcurve_codes_oracle.
 Print Assumptions C09_sorter_ext_inhabited.
+
+(* ---- the geometric clause: "sorted by their Z-order cell at the requested
+   depth" -- the cell a point is sorted by must be a cell that CONTAINS the
+   point (box arithmetic of src/geometry.rs on f64: center, contains with its
+   10*EPSILON tolerance, region, sub_aabb) ---- *)
+
+(* `region(p) = Some q -> sub_aabb(q).contains(p)` for the code's midpoint
+   (min+max)/2, wherever the tolerance of `contains` is effective at the
+   midlines of the box (c - eps < c < c + eps in f64: true for |c| < 32) *)
+Theorem C09_region_sub_contains : forall b p q,
+  forallb eps_effective (center b) = true ->
+  region b p = Some q -> contains (sub_aabb b q) p = true.
+Proof. exact region_sub_contains. Qed.
+Print Assumptions C09_region_sub_contains.
+
+(* hence the quadrants the model computes for a point that the top-level box
+   contains always pass the cell checker *)
+Theorem C09_model_codes_in_cells : forall order b p,
+  contains b p = true -> cells_contain (2 ^ N.of_nat (length b)) (geo_codes order b p) b p = true.
+Proof. exact geo_codes_in_cells. Qed.
+Print Assumptions C09_model_codes_in_cells.
+
+(* the cell checker decides its specification (two-way) *)
+Theorem C09_check_cells_ok : forall nq b pts codes,
+  check_cells nq b pts codes = true <-> cells_property nq b pts codes.
+Proof. exact check_cells_ok. Qed.
+Print Assumptions C09_check_cells_ok.
+
+(* f64 `<` (SpecFloat) is transitive; used for the lemma above *)
+Theorem C09_flt_trans : forall a b c, flt a b = true -> flt b c = true -> flt a c = true.
+Proof. exact flt_trans. Qed.
+Print Assumptions C09_flt_trans.
+
+(* non-vacuity: a point ON the midline x = 20 of the box [-30,70]x[0,10] goes to the lower
+   half, whose tolerance keeps it inside; at |c| >= 32 the tolerance is void *)
+Example C09_nonvacuous_midline :
+  let b := [(f64_of_Z (-30), f64_of_Z 70); (f64_of_Z 0, f64_of_Z 10)] in
+  let p := [f64_of_Z 20; f64_of_Z 3] in
+  geo_codes 3 b p = [0; 3; 1]%N /\ cells_contain 4 [0; 3; 1]%N b p = true
+  /\ eps_effective (f64_of_Z 20) = true /\ eps_effective (f64_of_Z 40) = false.
+Proof. vm_compute. repeat split; reflexivity. Qed.
 
 (* non-vacuity: six points in the 2-D quadrants 3,0,2,0,1,3 at depth 1, three
    parts: the run returns and each part is a run of the sorted order *)
